@@ -4,11 +4,11 @@ use crate::gen::{self, Content, CONTENTS};
 use crate::refimpl::{self, Scheme, RC, RG, SCHEMES};
 use crate::suite::*;
 use crate::{for_both, hx, Ctx, Tier};
-use blsful::inner_types::Group;
+use blsful::inner_types::{Field, Group};
 use blsful::*;
 use serde_json::json;
 
-pub const RULE: &str = "message lengths {0..=40, 100..=140, 16383, 16384, 16385, 65535, 65536} (quick: every 3rd of the short ranges + all boundary lengths) x 3 schemes x 2 groups x fresh keys x contents (random everywhere; all-zero, all-0xff and counter at lengths 1,31,32,33,127,128,129,16384 in the quick tier and at every length in the thorough tier). Honest: is_valid()==1, decrypt(sk)==msg, SignCryptDecryptionKey(u*sk).decrypt==msg, sk.sign_decryption_key path, decode(encode(ct)) decrypts, and the REFERENCE opens the library's ciphertext to msg. Tamper: EXHAUSTIVE single-bit flips of the whole byte encoding (u, length prefix, v, w, scheme byte) for one ciphertext of a message <= 8 bytes per (scheme,group) cell, 64 sampled flips for every other ciphertext; component-level changes: u+G, 2u, u of another ciphertext, w+G, -w, w of another ciphertext, v truncated by 1 / to empty / extended by 1 and 32 bytes / one byte changed, each other scheme label; 8 independent wrong keys. A flip whose encoding no longer decodes is counted as rejected-at-decode (trivial); one that decodes to the SAME value (non-canonical scheme byte) is not an alteration; every other one is non-trivial and must give is_valid()==0 and decrypt()==None on all three decrypt paths. Wrong keys must never return the original message. History clusters (1 quick / 6 thorough per group): the ciphertext of every scheme and seven altered copies (three labels, u+G, w+G, a payload bit, payload truncated) through is_valid / decrypt / decryption key / decrypt under a wrong key are asked in ordered pairs (a,b) as a,b,b,a; every answer must equal the answer the question has on its own. Distinct by (suite,scheme,variant,ciphertext bytes).";
+pub const RULE: &str = "message lengths {0..=40, 100..=140, 16383, 16384, 16385, 65535, 65536} (quick: every 3rd of the short ranges + all boundary lengths) x 3 schemes x 2 groups x fresh keys x contents (random everywhere; all-zero, all-0xff and counter at lengths 1,31,32,33,127,128,129,16384 in the quick tier and at every length in the thorough tier). Honest: is_valid()==1, decrypt(sk)==msg, SignCryptDecryptionKey(u*sk).decrypt==msg, sk.sign_decryption_key path, decode(encode(ct)) decrypts, and the REFERENCE opens the library's ciphertext to msg. Tamper: EXHAUSTIVE single-bit flips of the whole byte encoding (u, length prefix, v, w, scheme byte) for one ciphertext of a message <= 8 bytes per (scheme,group) cell, 64 sampled flips for every other ciphertext; component-level changes: u+G, 2u, u of another ciphertext, w+G, -w, w of another ciphertext, v truncated by 1 / to empty / extended by 1 and 32 bytes / one byte changed, each other scheme label; 8 independent wrong keys and the related keys -k, k+1, k-1, 2k, 1/k. A flip whose encoding no longer decodes is counted as rejected-at-decode (trivial); one that decodes to the SAME value (non-canonical scheme byte) is not an alteration; every other one is non-trivial and must give is_valid()==0 and decrypt()==None on all three decrypt paths. Wrong keys must never return the original message. History clusters (1 quick / 6 thorough per group): the ciphertext of every scheme and seven altered copies (three labels, u+G, w+G, a payload bit, payload truncated) through is_valid / decrypt / decryption key / decrypt under a wrong key are asked in ordered pairs (a,b) as a,b,b,a; every answer must equal the answer the question has on its own. Distinct by (suite,scheme,variant,ciphertext bytes).";
 
 pub fn run(ctx: &mut Ctx) {
     for_both!(run_suite, ctx);
@@ -213,8 +213,21 @@ fn one<C: Suite>(ctx: &mut Ctx, g: u64, scheme: Scheme, len: usize, content: Con
     // message with probability about 256^-(1+len). For len <= 2 that is observable and is the
     // recorded known finding `C11/wrong-key-decrypts/no-key-confirmation(len<=2)`; for longer
     // messages (probability <= 2^-32 per trial) any observation is reported under its own signature.
-    for i in 0..8 {
-        let wk = sk_from_rs::<C>(&gen::random_scalar(&mut rng));
+    // 8 independent keys and the keys algebraically RELATED to the right one (-k, k+1, k-1, 2k, 1/k)
+    let mut wrong: Vec<crate::refimpl::RS> = (0..8).map(|_| gen::random_scalar(&mut rng)).collect();
+    {
+        use crate::refimpl::RS;
+        let one = RS::ONE;
+        let inv: Option<RS> = Option::from(k.invert());
+        for c in [-k, k + one, k - one, k + k, inv.unwrap_or(one)] {
+            if c != k && !bool::from(c.is_zero()) {
+                wrong.push(c);
+            }
+        }
+    }
+    for (i, wkr) in wrong.iter().enumerate() {
+        let i = i as u8;
+        let wk = sk_from_rs::<C>(wkr);
         let Some((_, _, orig)) = probe::<C>(ctx, &ct, &wk, &msg) else { continue };
         let sig = if len <= 2 { "C11/wrong-key-decrypts/no-key-confirmation(len<=2)".to_string() } else { format!("C11/wrong-key-decrypts/{n}/{sn}") };
         ctx.expect(!orig, &sig, || d("a different secret key returned the original message"));
